@@ -119,6 +119,10 @@ def mk_bin(op, a, b):
         return ("bool", (a[1] == b[1]) == (op == "Eq"))
     if op in ("BitAnd", "BitOr") and a[0] == "bool" and b[0] == "bool":
         return ("bool", (a[1] and b[1]) if op == "BitAnd" else (a[1] or b[1]))
+    if a[0] == "int" and b[0] == "int" and op in ("Add", "Sub", "Mul") and a[2] == b[2] == "usize":
+        v = {"Add": a[1] + b[1], "Sub": a[1] - b[1], "Mul": a[1] * b[1]}[op]
+        if 0 <= v < 1 << 64:
+            return ("int", v, "usize")
     # x + 0, x - 0
     if op in ("Add", "Sub", "Offset") and b[0] == "int" and b[1] == 0:
         return a
@@ -809,7 +813,7 @@ class Enumerator:
             self.write_place(st, t["dest"], term)
             self._dfs(t["target"], st)
             return
-        path = strip_generics(callee["path"])
+        path = core_path(strip_generics(callee["path"]))
         gargs = tuple(callee.get("gargs", ()))
         if t["target"] is None:
             sargs = tuple(self.snap(st, a) for a in args)
@@ -897,6 +901,16 @@ class Enumerator:
 
 
 DISCR = {}
+
+
+_CORE_MODS = ("ptr", "mem", "slice", "str", "option", "result", "cmp", "num", "char", "marker", "ops", "intrinsics", "array", "ffi")
+
+
+def core_path(p):
+    """witness crates see core items through `std::`; use one spelling"""
+    if p.startswith("std::") and p.split("::")[1] in _CORE_MODS:
+        return "core::" + p[5:]
+    return p
 
 
 def mk_discr(v):
